@@ -224,6 +224,61 @@ class _HeaderDataset:
         return list(self)
 
 
+class _H5Rows:
+    """result of reading a compound dataset: rows selected, addressed by field name"""
+    def __init__(self, cols):
+        self.cols = cols
+
+    def __getitem__(self, name):
+        if isinstance(name, str):
+            if name not in self.cols:
+                raise ValueError("Field %s does not appear in this type." % name)
+            return self.cols[name]
+        raise UnsupportedByShim("indexing read rows by %r" % (name,))
+
+    def __len__(self):
+        for v in self.cols.values():
+            return len(v)
+        return 0
+
+
+class _H5Table:
+    """the compound 'samples' dataset as h5py presents it: ds[name] -> column, ds[sel] -> rows, ds.fields(names)[sel] -> rows
+    restricted to the fields; point selections (index arrays) must be strictly increasing, as h5py demands"""
+    def __init__(self, world, fm, names=None):
+        self.w, self.fm, self.names = world, fm, names
+
+    @property
+    def shape(self):
+        return (self.fm.nrows,)
+
+    def __len__(self):
+        return self.fm.nrows
+
+    def fields(self, names):
+        names = [names] if isinstance(names, str) else list(names)
+        for n in names:
+            if n not in self.fm.columns:
+                raise ValueError("Field %s does not appear in this type." % n)
+        return _H5Table(self.w, self.fm, names)
+
+    def __getitem__(self, sel):
+        self.w.call("h5py.read")
+        self.w.event("h5.read", self.fm.path, self.names)
+        if isinstance(sel, str):
+            if sel not in self.fm.columns:
+                raise ValueError("Field %s does not appear in this type." % sel)
+            return self.fm.columns[sel].copy()
+        if isinstance(sel, symnp.SymArray):
+            cells = list(sel.a.flat)
+            for a_, b_ in zip(cells, cells[1:]):
+                inc = a_ < b_
+                if not (core.decide(inc) if isinstance(inc, core.SB) else bool(inc)):
+                    raise TypeError("Indexing elements must be in increasing order")
+        names = self.names or list(self.fm.columns)
+        return _H5Rows({n: self.fm.columns[n][sel] for n in names})
+
+
 class _H5File:
     def __init__(self, world, fm, mode):
         self.w, self.fm, self.mode = world, fm, mode
@@ -247,6 +302,8 @@ class _H5File:
             raise KeyError("Unable to open object (object '%s' doesn't exist)" % k)
         if k == "samples.__table_column_meta__":
             return _HeaderDataset(self.fm)
+        if k == "samples":
+            return _H5Table(self.w, self.fm)
         raise UnsupportedByShim("h5py item %r" % (k,))
 
     def keys(self):
@@ -512,6 +569,23 @@ class SymRng:
             core.Ctx.cur.add_side(z3.Distinct(*[c.e for c in cells]))
         self.draws.append(("choice", n, k, cells))
         return symnp.SymArray(symnp._obj(cells), symnp._I8)
+
+    def integers(self, low, high=None, size=None, dtype=None, endpoint=False):
+        """draws WITH replacement from [low, high): independent symbolic integers (repeats possible)"""
+        if high is None:
+            low, high = 0, low
+        lo, hi = int(low), int(high) + (1 if endpoint else 0)
+        k = 1 if size is None else int(size)
+        z3 = core.z3
+        cells = []
+        for j in range(k):
+            c = core.integer("integers_%s_%d" % ("_".join(str(x) for x in self.key), self.pos))
+            self.w.event("draw", self.key, self.pos)
+            self.pos += 1
+            core.Ctx.cur.add_side(z3.And(c.e >= lo, c.e < hi))
+            cells.append(c)
+        self.draws.append(("integers", hi - lo, k, cells))
+        return cells[0] if size is None else symnp.SymArray(symnp._obj(cells), symnp._I8)
 
     def permutation(self, x):
         if isinstance(x, symnp.SymArray):
